@@ -28,7 +28,11 @@ static uint64_t in_u64(void) { return in_rec(nondet_u64()); }
 static uint32_t in_u32(void) { return (uint32_t)in_rec(nondet_u32()); }
 static uint8_t in_u8(void) { return (uint8_t)in_rec(nondet_u8()); }
 static uint32_t in_range(uint32_t lo, uint32_t hi) { uint32_t v = nondet_u32(); __CPROVER_assume(v >= lo && v <= hi); return (uint32_t)in_rec(v); }
+#ifdef C13MODE
+#define H_ASSERT(c, msg) ((void)(c))   /* C13 twin: only CBMC's standard checks and the unwinding assertions decide */
+#else
 #define H_ASSERT(c, msg) __CPROVER_assert((c), "LEMMA: " msg)
+#endif
 #define H_WITNESS(c, msg) __CPROVER_assert((c), "WITNESS: " msg)
 #define H_SAFETY(c, msg) __CPROVER_assert((c), "SAFETY: " msg)
 #define H_OUT(name, v) ((void)0)
